@@ -54,7 +54,7 @@ pub fn run(args: &Args) {
     let bias = Bias { tiny_swaps: false, spreads: true, toggles: false };
     for c in 0..args.n {
         let len = 5 + rng.below(25) as usize;
-        let case = gen_case(&mut rng, len, &bias);
+        let case = match std::panic::catch_unwind(std::panic::AssertUnwindSafe(|| gen_case(&mut rng, len, &bias))) { Ok(c) => c, Err(_) => { out.count("generator_panic"); continue } };
         let r = match run_case(&mut out, "C15", &case) { Some(r) => r, None => continue };
         if r.kinds_ok.len() >= 3 && r.had_remainder { out.nontrivial_key(hash_str(&case.coq())); }
         if c < 2 { out.sample(case.json()); }
